@@ -136,17 +136,31 @@ func vRunCase(t *testing.T, c vCase) (msg string) {
 			return "IsOne mismatch"
 		}
 	case "cselect":
-		u, v := vBig(c.A), vBig(c.B)
-		r := vScalarOf(t, vBig(c.C))
-		if err := r.CSelect(c.U, vScalarOf(t, u), vScalarOf(t, v)); err != nil {
+		// N selects the aliasing: 0 distinct, 1 u==v, 2 r==u, 3 r==v, 4 all the same
+		uv, vv, rv := vBig(c.A), vBig(c.B), vBig(c.C)
+		r, u, v := vScalarOf(t, rv), vScalarOf(t, uv), vScalarOf(t, vv)
+		switch c.N {
+		case 1:
+			v, vv = u, uv
+		case 2:
+			u, uv = r, rv
+		case 3:
+			v, vv = r, rv
+		case 4:
+			u, uv, v, vv = r, rv, r, rv
+		}
+		if err := r.CSelect(c.U, u, v); err != nil {
 			return "unexpected error"
 		}
-		want := u
+		want := uv
 		if c.U != 0 {
-			want = v
+			want = vv
 		}
 		if vScalarVal(r).Cmp(want) != 0 {
-			return "CSelect(cond=" + utoa(c.U) + ") = " + hex.EncodeToString(r.Encode()) + ", want " + hex.EncodeToString(vPad32(want))
+			return "CSelect(cond=" + utoa(c.U) + ", aliasing " + itoa(c.N) + ") = " + hex.EncodeToString(r.Encode()) + ", want " + hex.EncodeToString(vPad32(want))
+		}
+		if c.N == 0 && (vScalarVal(u).Cmp(uv) != 0 || vScalarVal(v).Cmp(vv) != 0) {
+			return "CSelect modified an operand"
 		}
 	case "scalar-op":
 		a, b := vBig(c.A), vBig(c.B)
